@@ -62,6 +62,9 @@ def _class_of_value(e: ast.AST) -> Optional[str]:
     return None
 
 
+LATER_RULES = ' Later rules: (R12.6) hand-written visit_K methods of the template compiler pass all fields of K; (R12.7) the pattern list is matched as given; (R12.8) a wildcard never matches an absent child; (R12.9) leaf values are compared type-strictly.'
+
+
 def check(prog: Program, tier: str) -> Result:
     res = Result(
         "C12",
@@ -79,6 +82,7 @@ def check(prog: Program, tier: str) -> Result:
             "backtracking search itself (slack arithmetic, window arithmetic of walk_sequence)."),
         rule_text="instances = table entries and combination-rule sites in core.py",
     )
+    res.explanation += LATER_RULES
     res.trusted_base = ["CPython ast and re._parser", "declarative quantifier table in sa/props/c12.py"]
     _r12_1(prog, res)
     _r12_2(prog, res)
